@@ -3119,6 +3119,15 @@ impl Collection {
         // apply the new values
         let mut fields_keys = FxHashSet::default();
         for (field_name, fv) in fields {
+            // The primary key is the document's identity, and unique like any
+            // other `#[unique]` field: an update may restate it, never move it.
+            if field_name == Schema::ID_KEY && fv != FieldValue::U64(id) {
+                return Err(DBError::Generic {
+                    name: self.name.clone(),
+                    source: format!("update cannot change {:?} of document {id}", Schema::ID_KEY)
+                        .into(),
+                });
+            }
             doc.set_field(&field_name, fv)?;
             fields_keys.insert(field_name);
         }
